@@ -147,13 +147,13 @@ Definition reg_ok (E : store) (r : registry) : Prop := forall i, cell_ok E (rget
 Definition body (b : builder) : list N := concat (rev (b_out b)).
 Definition bbytes (b : builder) : Prop := Forall (fun x => x < 256) (body b).
 
-Record bytes_ok (ty : N) (E : store) (b : builder) : Prop := mkBytesOk {
-  by_ver : b_version b = 3;
+Record bytes_ok (ver ty : N) (E : store) (b : builder) : Prop := mkBytesOk {
+  by_ver : b_version b = ver;
   by_cnt : b_count b = top_addr E + 1;
   by_len : len (body b) = b_count b;
-  by_hdr : firstn 16 (body b) = u64_le 3 ++ u64_le ty;
+  by_hdr : firstn 16 (body b) = u64_le ver ++ u64_le ty;
   by_tiles : forall fuel acc0, (length E < fuel)%nat ->
-             tiles 3 fuel (rev (body b)) (top_addr E) acc0 = Some (rev E ++ acc0);
+             tiles ver fuel (rev (body b)) (top_addr E) acc0 = Some (rev E ++ acc0);
   by_la : b_last_addr b = match E with [] => NONE_ADDRESS | _ => top_addr E end
 }.
 
@@ -163,8 +163,8 @@ Definition key_bytes (ks : list key) : N := fold_right (fun k a => len k + a) 0 
 Definition lastkey (acc : kmap) : key := match acc with [] => [] | (k, _) :: _ => k end.
 
 (* the part of the invariant that `compile` reads and writes *)
-Definition minv (ty : N) (E : store) (b : builder) : Prop :=
-  store_ok E /\ bytes_ok ty E b /\ reg_ok E (b_reg b).
+Definition minv (ver ty : N) (E : store) (b : builder) : Prop :=
+  store_ok E /\ bytes_ok ver ty E b /\ reg_ok E (b_reg b).
 
 (* the part about the unfinished stack: [k] the key spelled by the pending transitions,
    [L] the language of the stack *)
@@ -180,8 +180,8 @@ Definition top_empty (st : list unf) : Prop :=
   forall u, last_opt st = Some u -> n_trans (u_node u) = [].
 
 (* [acc]: the accepted pairs, newest first.  [G]: global node budget; [rem]: key bytes still to come *)
-Record inv (ty G rem : N) (E : store) (acc : kmap) (b : builder) : Prop := mkInv {
-  i_m : minv ty E b;
+Record inv (ver ty G rem : N) (E : store) (acc : kmap) (b : builder) : Prop := mkInv {
+  i_m : minv ver ty E b;
   i_s : sinv E (b_stack b) (lastkey acc) (rev acc);
   i_top : top_empty (b_stack b);
   i_len : b_len b = len acc;
